@@ -8,6 +8,12 @@ LOC count flips the verdict or changes the count quoted in the message.
 decoy(lang, u): a suppression directive that covers a finding-free line which is directly followed by a violating line.
 The documented scope of `ignore-next-line` is the next line only, so the violation is reported; inserting blank or
 comment lines *below the covered line* changes nothing a rule is documented to look at.
+
+stmtlimit(lang, u, limit, shape): Python class whose getter-like methods have bodies that sit at / next to a documented
+STATEMENT-count limit (docs/method-property-linter.md: "short body (1-3 statements)", `max_body_statements`): `limit`
+statements, `limit + 1` statements, and a body whose last statement is a parenthesised multi-line expression. A
+statement count is a fact about the program; the number of physical lines the body occupies is not, so blank or
+comment lines inserted between the body statements (or inside the parentheses) must change nothing.
 """
 from __future__ import annotations
 
@@ -86,3 +92,47 @@ def cloneuse(lang: str, u: int):
     lines = [f"fn keep_{u}(item{u}: String) -> usize {{", f"    let copy{u} = item{u}.clone();", f"    let total{u} = measure_{u}(copy{u});", f"    total{u}", "}", "",
              f"fn reuse_{u}(elem{u}: String) -> usize {{", f"    let dup{u} = elem{u}.clone();", f"    let first{u} = measure_{u}(dup{u});", f"    first{u} + elem{u}.len()", "}"]
     return Snippet(lines, [("clone-abuse.unnecessary-clone", 1)], "cloneuse")
+
+
+STMT_SHAPES = ("flat", "paren", "doc")
+
+
+def stmtlimit(lang: str, u: int, limit: int, shape: int):
+    """Python only. `limit` = the max_body_statements the file is linted with (2..5).
+    flat : `limit` one-line statements                      + a sibling with limit+1 statements (outside the limit)
+    paren: limit-1 statements, the return spread over 2 lines in parentheses (limit physical lines)
+    doc  : a one-line docstring followed by `limit` one-line statements
+    Every body is side-effect free, call free and control-flow free; each method takes only self and returns a value."""
+    if lang != "py":
+        return None
+    lines = [f"class Acct{u}:", f"    def __init__(self, a{u}, b{u}):", f"        self._a{u} = a{u}", f"        self._b{u} = b{u}", ""]
+    expect = []
+
+    def method(name, nstmts, paren=False, doc=False):
+        expect.append(("method-property.should-be-property", len(lines)))
+        lines.append(f"    def {name}_{u}(self):")
+        if doc:
+            lines.append(f'        """Sum of the parts of {name}."""')
+        prev = f"self._a{u}"
+        for j in range(nstmts - 1):
+            lines.append(f"        w{j}_{u} = {prev} * self._b{u}")
+            prev = f"w{j}_{u}"
+        if paren:
+            lines.append(f"        return ({prev}")
+            lines.append(f"                + self._b{u})")
+        else:
+            lines.append(f"        return {prev} + self._b{u}")
+        lines.append("")
+
+    kind = STMT_SHAPES[shape % len(STMT_SHAPES)]
+    if kind == "flat":
+        method("total", limit)
+        method("ratio", limit + 1)
+        expect.pop()
+    elif kind == "paren":
+        method("total", max(1, limit - 1), paren=True)
+        method("ratio", limit)
+    else:
+        method("total", limit, doc=True)
+        method("ratio", max(1, limit - 1))
+    return Snippet(lines[:-1], expect, "stmtlimit")
